@@ -271,10 +271,23 @@ Definition read_all (m : option str) (ph : option (list (str * val)))
   end.
 
 (** reader.Read_str(str, cursor, placeholderValues, ns) *)
+(** the text after the first line (strings.IndexByte(str, '\n') + 1), "" when there is none *)
+Fixpoint drop_first_line (l : str) : str :=
+  match l with c :: r => if N.eqb c 10 then r else drop_first_line r | [] => [] end.
+
 Definition read_str (cursor_module : option str) (ph : option (list (str * val)))
            (ext : option (str -> list val -> outcome val)) (src : str) : outcome val :=
-  let m := match cursor_module with Some x => Some x | None => module_of src end in
-  match tokenize src with
+  (* a ";; $MODULE name" header names the module and is not part of it (fix 1c03c0b): the
+     module's first line is the one after the header *)
+  let '(m, text) :=
+    match cursor_module with
+    | Some x => (Some x, src)
+    | None => match module_of src with
+              | Some name => (Some name, drop_first_line src)
+              | None => (None, src)
+              end
+    end in
+  match tokenize text with
   | None => rerr "invalid token" None
   | Some ts => read_all m ph ext ts
   end.
